@@ -251,6 +251,11 @@ def case(rng, cat=None):
             inner2, iout2, ikeys2 = gen_select(rng, cat, 0)
             sel2 = ", ".join("w." + n if rng.random() < 0.6 else n for n, _ in iout2)
             return cat, "WITH w AS (%s) SELECT %s FROM (%s) w" % (inner, sel2, inner2), expected_select(iout2), None
+        if 0.42 <= j < 0.55:
+            # a derived table that reads a WITH table of the enclosing statement: the WITH scope reaches into the sub-query, the provider is not asked for it
+            names = [n for n, _ in iout]
+            return (cat, "WITH w AS (%s) SELECT %s FROM (SELECT %s FROM w) dd" % (inner, ", ".join("dd." + n for n in names), ", ".join(names)),
+                    expected_select(iout), ikeys)
         if j > 0.75:                                    # the WITH clause sits inside a derived table, not at the top
             text = "SELECT %s FROM (WITH %s AS (%s) SELECT %s FROM %s) dd" % (", ".join("dd." + n for n, _ in iout), wn, inner, sel, wn)
         else:
